@@ -309,6 +309,7 @@ func (c *crashCtl) probeLocked(at, cls string, dur bool) {
 	defer func() { c.inProbe = false }()
 	items := c.mem.UnsyncedItems()
 	pend := append([]Ev{}, c.pending...)
+	fmvlo, fmvhi := c.fmvlo, c.fmvhi
 	var chainA [][]int
 	if c.wantFiles {
 		chainA = manifestVersions(c.mem.CrashCloneWith(func(string, bool, int) bool { return true }), c.r.Dir)
@@ -331,7 +332,7 @@ func (c *crashCtl) probeLocked(at, cls string, dur bool) {
 		ev["choice"] = ch.name
 		ev["unsynced"] = len(items)
 		ev["dur"] = dur
-		ev["fmvlo"], ev["fmvhi"] = c.fmvlo, c.fmvhi
+		ev["fmvlo"], ev["fmvhi"] = fmvlo, fmvhi
 		ev["vallowed"] = [][]int{}
 		evs = append(evs, ev)
 	}
